@@ -2,8 +2,6 @@ package backend
 
 import (
 	"github.com/XiaoMi/Gaea/util/sync2"
-
-	"time"
 )
 
 // 组合熔断策略和恢复策略
@@ -31,7 +29,7 @@ func NewHardCoolDown(coolingSec int64) *HardCoolDownStrategy {
 
 // 实现 RecoveryStrategy 接口
 func (s *HardCoolDownStrategy) AllowRecovery() bool {
-	now := time.Now().Unix()
+	now := timeNow().Unix()
 	line := s.lastFuseTime.Get() + s.coolingPeriod
 	return now >= line
 }
@@ -57,7 +55,7 @@ func NewGradualRecovery() *GradualRecoveryStrategy {
 	g := &GradualRecoveryStrategy{
 		errorRecoveryCount:           sync2.NewAtomicInt64(initErrorRecoveryCount),
 		consecutiveSuccessCheckCount: sync2.NewAtomicInt64(0),
-		lastRecoveryTime:             sync2.NewAtomicInt64(time.Now().Unix()),
+		lastRecoveryTime:             sync2.NewAtomicInt64(timeNow().Unix()),
 	}
 	return g
 }
@@ -111,5 +109,5 @@ func (g *GradualRecoveryStrategy) AllowRecovery() bool {
 }
 
 func (g *GradualRecoveryStrategy) UpdateLastRecoveryTime() {
-	g.lastRecoveryTime.Set(time.Now().Unix())
+	g.lastRecoveryTime.Set(timeNow().Unix())
 }
